@@ -1034,13 +1034,13 @@ func (e *Engine) ExploreTask(t *task) {
 			for c := range e.pathCover {
 				e.covers[c]++
 			}
-			e.stop = true
+			e.stop = e.pool == nil || e.pool.noteViolation()
 		case "panic", "deadlock", "race":
 			if e.opts.Forbid[res.kind] {
 				// the path condition is satisfiable: take its model
 				e.live = true
 				e.recordViolation(res.kind, res.msg, res.kind, "")
-				e.stop = true
+				e.stop = e.pool == nil || e.pool.noteViolation()
 			} else {
 				e.stats.PathsOK++
 			}
@@ -1048,7 +1048,7 @@ func (e *Engine) ExploreTask(t *task) {
 			if e.opts.Forbid["budget"] {
 				e.live = true
 				e.recordViolation("termination", res.msg, "budget", "")
-				e.stop = true
+				e.stop = e.pool == nil || e.pool.noteViolation()
 			} else {
 				e.noteInconclusive("unwinding failure: " + res.msg)
 				e.stop = true
@@ -1085,6 +1085,19 @@ type pool struct {
 	idle    int
 	halt    bool
 	tasks   int
+	viol    int // counterexamples found so far (all workers)
+}
+
+// maxAlternatives: the search goes on after a counterexample until this many have been found (or the tree is
+// exhausted), so that the native replay has alternatives when the first one does not reproduce.
+const maxAlternatives = 3
+
+// noteViolation counts a counterexample; true when enough have been collected.
+func (p *pool) noteViolation() bool {
+	p.mu.Lock()
+	defer p.mu.Unlock()
+	p.viol++
+	return p.viol >= maxAlternatives
 }
 
 func newPool(workers int) *pool {
